@@ -496,6 +496,13 @@ def replay_reuse(cex):
         return len(bad) > 0, {"problems": bad}
 
 
+def sec_batch_registry(rec, patches=None):
+    """the batch average runs over the tomogram each molecule was registered with: image-id bookkeeping of derived batches (executed by C03's batch-ops section)"""
+    from .c03 import sec_batch_ops
+
+    sec_batch_ops(rec, patches=patches)
+
+
 def sec_reuse(rec, patches=None):
     """average / average_split load through the same loader object again and again: loading must not modify the loader, its molecules or the template it was given.
     (a) SubtomogramLoader: C02's sampling section (corner_safe, scale symbolic incl. exactly 1) with its 'molecule-positions-not-modified' fact;
@@ -547,7 +554,7 @@ def sec_reuse(rec, patches=None):
 
 
 def sections(tier):
-    S = [("seed", "checks.c09", "sec_seed", {}), ("group", "checks.c09", "sec_group", {}), ("batch-average", "checks.c09", "sec_batch_average", {}), ("loader-reuse", "checks.c09", "sec_reuse", {})]
+    S = [("seed", "checks.c09", "sec_seed", {}), ("group", "checks.c09", "sec_group", {}), ("batch-average", "checks.c09", "sec_batch_average", {}), ("loader-reuse", "checks.c09", "sec_reuse", {}), ("batch-registry", "checks.c09", "sec_batch_registry", {})]
     for n in (1, 2, 3, 5):
         S.append((f"average-{n}", "checks.c09", "sec_average", {"n": n}))
     for n in (2, 3, 4) if quick(tier) else (2, 3, 4, 5, 6):
